@@ -560,6 +560,17 @@ impl Engine for NetSim {
                 if f.one_in(3) {
                     tape.entries[net::S2C].insert(f.below(4) as u32, Fault::Drop);
                 }
+                // a NAT rebinding after the handshake: the server sees the connection's packets arrive from a new
+                // address, which it must treat as unvalidated (3x) until path validation completes
+                if f.one_in(2) {
+                    tape.rebind_from = Some(f.range(12, 80) as u32);
+                    // the server has bulk data to send after the rebinding
+                    let n_uni = streams.iter().filter(|s| s.opener == Side::Server && !s.bidi).count() as u32;
+                    client.streams_uni = client.streams_uni.max(n_uni + 1);
+                    client.stream_uni = client.stream_uni.max(65_536);
+                    client.max_data = client.max_data.max(65_536);
+                    streams.push(StreamSpec { opener: Side::Server, bidi: false, size: 60_000, chunk: 1200, resp_size: 0, resp_chunk: 1200, read_buf: 4096, reset_after: None, stop_after: None });
+                }
             }
         }
         Case {
@@ -591,6 +602,11 @@ impl Engine for NetSim {
 
     fn shrink(&self, case: &Case) -> Vec<Case> {
         let mut v = Vec::new();
+        if case.tape.rebind_from.is_some() {
+            let mut c = case.clone();
+            c.tape.rebind_from = None;
+            v.push(c);
+        }
         // 1. drop halves of the tape, then single entries
         for dir in 0..2 {
             let keys: Vec<u32> = case.tape.entries[dir].keys().copied().collect();
